@@ -227,19 +227,34 @@ Definition inst (on : list string) (t : access_table) : list arow :=
 Definition may_parallel (a b : arow) : bool :=
   negb (String.eqb (ar_entry a) (ar_entry b)) || ar_multi a.
 
+(* written with explicit [if]s: vm_compute evaluates the arguments of && eagerly, and the
+   string comparison is the expensive part *)
 Definition rows_conflict (a b : arow) : bool :=
-  String.eqb (ar_field a) (ar_field b) && (ar_write a || ar_write b) && may_parallel a b.
+  if ar_write a || ar_write b
+  then if String.eqb (ar_field a) (ar_field b) then may_parallel a b else false
+  else false.
 
-Definition row_protected (t : list arow) (a : arow) : bool :=
-  forallb (fun b => implb (rows_conflict a b) (common_lock (ar_held a) (ar_held b))) t.
+(* a known finding names a conflict edge: two entry points (in either order) and a field *)
+Definition known_edge := (string * string * string)%type.
 
-Definition is_known (known : list (string * string)) (a : arow) : bool :=
-  existsb (fun k => String.eqb (fst k) (ar_entry a) && String.eqb (snd k) (ar_field a)) known.
+Definition edge_known (known : list known_edge) (a b : arow) : bool :=
+  existsb (fun k => let e1 := fst (fst k) in let e2 := snd (fst k) in
+    String.eqb (snd k) (ar_field a) &&
+    ((String.eqb e1 (ar_entry a) && String.eqb e2 (ar_entry b)) ||
+     (String.eqb e1 (ar_entry b) && String.eqb e2 (ar_entry a)))) known.
 
-(* every row is protected against every row it conflicts with, except the (entry, field) pairs
-   listed as known findings *)
-Definition protected_except (known : list (string * string)) (t : list arow) : bool :=
-  forallb (fun a => row_protected t a || is_known known a) t.
+Definition pair_ok (known : list known_edge) (a b : arow) : bool :=
+  if rows_conflict a b
+  then if common_lock (ar_held a) (ar_held b) then true else edge_known known a b
+  else true.
+
+Definition row_protected_except (known : list known_edge) (t : list arow) (a : arow) : bool :=
+  forallb (pair_ok known a) t.
+
+(* every row is protected against every row it conflicts with, except along the conflict
+   edges (entry, entry, field) listed as known findings *)
+Definition protected_except (known : list known_edge) (t : list arow) : bool :=
+  forallb (row_protected_except known t) t.
 
 Definition protected_tbl (t : list arow) : bool := protected_except [] t.
 
@@ -262,38 +277,37 @@ Fixpoint sublists {A} (l : list A) : list (list A) :=
 
 Definition modes (t : access_table) : list (list string) := sublists (conds t).
 
-Definition protected_except_all (known : list (string * string)) (t : access_table) : bool :=
+Definition protected_except_all (known : list known_edge) (t : access_table) : bool :=
   forallb (fun on => protected_except known (inst on t)) (modes t).
 
 (* the obligation evaluated on gen/Accesses.v *)
 Definition protected (t : access_table) : bool := protected_except_all [] t.
 
-(* indices (in the original table) of the rows that are unprotected in some mode *)
-Definition unprotected_in (on : list string) (t : access_table) (r : row) : bool :=
-  active on (r_cond r) && negb (row_protected (inst on t) (inst_row on r)).
+(* conflict edges for the report: index pairs (i <= j, positions in the table) of rows that
+   conflict without a common lock in some start-up mode (a pair may be listed once per mode) *)
+Definition inst_all (on : list string) (t : access_table) : list (bool * arow) :=
+  map (fun r => (active on (r_cond r), inst_row on r)) t.
 
-Definition row_unprotected_in (ms : list (list string)) (t : access_table) (r : row) : bool :=
-  existsb (fun on => unprotected_in on t r) ms.
+Definition bad_pair (a b : bool * arow) : bool :=
+  if fst a then if fst b then
+    if (if rows_conflict (snd a) (snd b) then true else rows_conflict (snd b) (snd a))
+    then negb (common_lock (ar_held (snd a)) (ar_held (snd b))) else false
+  else false else false.
 
-Fixpoint indices_where {A} (f : A -> bool) (l : list A) (i : nat) : list nat :=
+Fixpoint bad_from (a : bool * arow) (i : nat) (l : list (bool * arow)) (j : nat) : list (nat * nat) :=
   match l with
   | [] => []
-  | x :: l' => (if f x then [i] else []) ++ indices_where f l' (S i)
+  | b :: l' => if bad_pair a b then (i, j) :: bad_from a i l' (S j) else bad_from a i l' (S j)
   end.
 
-Definition unprotected_indices (t : access_table) : list nat :=
-  let ms := modes t in indices_where (row_unprotected_in ms t) t 0.
-
-(* a partner for the report: index of the first row that conflicts with row r without a common
-   lock in some mode *)
-Definition partner_of (ms : list (list string)) (t : access_table) (r : row) : option nat :=
-  let bad on b := active on (r_cond r) && active on (r_cond b) &&
-                  rows_conflict (inst_row on r) (inst_row on b) &&
-                  negb (common_lock (ar_held (inst_row on r)) (ar_held (inst_row on b))) in
-  match indices_where (fun b => existsb (fun on => bad on b) ms) t 0 with
-  | i :: _ => Some i
-  | [] => None
+Fixpoint bad_pairs_aux (l : list (bool * arow)) (i : nat) : list (nat * nat) :=
+  match l with
+  | [] => []
+  | a :: l' => bad_from a i l i ++ bad_pairs_aux l' (S i)
   end.
+
+Definition bad_pairs (t : access_table) : list (nat * nat) :=
+  flat_map (fun on => bad_pairs_aux (inst_all on t) 0) (modes t).
 
 (* ---------- what it means for a program to be summarised by a table ---------- *)
 
